@@ -180,6 +180,7 @@ impl<Data: Clone + Debug> From<TimelineConfiguration<Data>> for TimelineBuilderA
         };
         args.keyframes
             .sort_by(|a, b| a.normalized_time.total_cmp(&b.normalized_time));
+        args.boundary_times = args.keyframes.iter().map(|k| k.normalized_time).collect();
         args
     }
 }
